@@ -9,7 +9,7 @@ from ..spec import to_yaml_dict
 
 PROP = 'C12'
 LEVEL = 'fault_enumeration'
-BUDGET = {'quick': 640, 'thorough': 4800}
+BUDGET = {'quick': 640, 'thorough': 960}
 RULE = ('cases = a valid document in the documented YAML format (from a generated well-formed '
         'chart; some names written as unquoted integers/booleans, which the importer coerces to '
         'strings) to which fault operators are applied at every position: duplicate name, unknown '
